@@ -33,10 +33,15 @@ import (
 	"github.com/ollama/ollama/verifsim"
 )
 
+// inputTokens is what the model must be given for a list of recorded inputs: the token, or
+// for a multimodal input the code of its payload (see effTokens).
 func inputTokens(in []input.Input) []int32 {
 	out := make([]int32, len(in))
 	for i := range in {
 		out[i] = in[i].Token
+		if p, ok := in[i].Multimodal.(imgPayload); ok {
+			out[i] = p.code
+		}
 	}
 	return out
 }
@@ -221,6 +226,39 @@ func (srv *simServer) beginForward(batch input.Batch, toks []float32) {
 	}
 	if seqs > 1 {
 		verifsim.Probe("multi_seq_batch")
+	}
+}
+
+// checkSameBatch: an input with SameBatch = k must be evaluated in one batch with the k inputs
+// that follow it (a vision model lays the image's rows over them in that one graph; cut in
+// two, the model is given a different image). Checked by count only, and only while the
+// sequence still had inputs queued when the batch was closed: what follows an image after a
+// context shift has cut its group is not specified (the TODO at InputCache.ShiftDiscard).
+func (srv *simServer) checkSameBatch(batch input.Batch) {
+	for _, mi := range batch.Multimodal {
+		p, ok := mi.Multimodal.(imgPayload)
+		if !ok || mi.Index < 0 || mi.Index >= len(batch.Sequences) {
+			continue
+		}
+		verifsim.Probe("image_row_forwarded")
+		if p.same == 0 {
+			continue
+		}
+		slot := batch.Sequences[mi.Index]
+		have := 0
+		for k := mi.Index + 1; k < len(batch.Sequences) && k <= mi.Index+p.same && batch.Sequences[k] == slot; k++ {
+			have++
+		}
+		if have == p.same {
+			verifsim.Probe("same_batch_group_whole")
+			continue
+		}
+		sq, n := srv.liveFor(slot)
+		if n != 1 || len(sq.inputs) == 0 {
+			continue
+		}
+		srv.w.violate("C07", "same-batch", "same-batch:group-split", "%s: slot %d: the image at batch row %d needs the %d inputs that follow it in its batch, the batch holds %d of them (%d rows in all) although %d further inputs of the sequence were waiting",
+			srv.name, slot, mi.Index, p.same, have, len(batch.Sequences), len(sq.inputs))
 	}
 }
 
